@@ -1,13 +1,16 @@
 #!/bin/bash
 # usage: tools/try_mutant.sh <patch.diff> <prop> [<prop> …]
-# applies the patch to /repo, runs the quick checks, and always restores /repo afterwards
+# applies the patch to /repo (or to the scratch worktree named by MUT_REPO, which the checks then build from via
+# VERIF_REPO - used while sub-agents are reading /repo), runs the quick checks, and always restores the tree afterwards
 set -u
+R="${MUT_REPO:-/repo}"
+[ "$R" != /repo ] && export VERIF_REPO="$R"
 patch="$1"; shift
 cd /verif
 export VERIF_EVIDENCE_DIR=/verif/build/evidence-mutant   # never overwrite the committed evidence with a mutant run
-if ! git -C /repo diff --quiet; then echo "/repo is dirty, refusing"; exit 2; fi
-trap 'git -C /repo checkout -- . ; git -C /verif checkout -- lean/PqlModel/Generated/Facts.lean ; git -C /repo clean -fdq -- mutdemo 2>/dev/null' EXIT
-git -C /repo apply "$(realpath "$patch")" || { echo "patch does not apply"; exit 2; }
+if ! git -C "$R" diff --quiet; then echo "$R is dirty, refusing"; exit 2; fi
+trap 'git -C "$R" checkout -- . ; git -C /verif checkout -- lean/PqlModel/Generated/Facts.lean ; git -C "$R" clean -fdq -- mutdemo 2>/dev/null' EXIT
+git -C "$R" apply "$(realpath "$patch")" || { echo "patch does not apply"; exit 2; }
 for p in "$@"; do
   out=$(./check "$p" 2>&1)
   echo "$out" | grep -E "^VIOLATION|^KNOWN-FINDING|: (ok|FAIL) in" | sed "s/^/[$p] /" | cut -c1-300
